@@ -2,6 +2,9 @@
 // answer) triples the verdict of the REAL proxy (validators wired by proxy.New) is observed at the login
 // callback, on the next request, after a validity expiry and after a token expiry, and compared with the
 // reference predicate (oracle.Rules, the property statement + docs/sso_config.md) and with each other.
+// Streams: c11 (rule-kind subsets x list variants x e-mail classes x provider answers), c11-moved (facts change
+// between the moments), c11-long (long allowed_groups lists), c11-rare (rare-but-legal configurations: blank,
+// padded, duplicated, templated entries; present-but-empty kinds), c11-empty (the empty rule set).
 package c11
 
 import (
@@ -10,6 +13,7 @@ import (
 	"net/http"
 	"net/url"
 	"strings"
+	"sync"
 	"testing"
 	"time"
 
@@ -28,6 +32,7 @@ type kase struct {
 	Upstream   int      `json:"upstream"`
 	Kinds      string   `json:"kinds"`
 	Variants   string   `json:"variants"`
+	Rare       string   `json:"rare_configuration,omitempty"`
 	Addresses  []string `json:"allowed_email_addresses,omitempty"`
 	Domains    []string `json:"allowed_email_domains,omitempty"`
 	Groups     []string `json:"allowed_groups,omitempty"`
@@ -64,10 +69,12 @@ func TestProp(t *testing.T) {
 	}
 	env := vh.GetEnv()
 	rep := vh.NewReport("C11", "exploration")
-	rep.Rule("per stack 16 generated upstreams cover every non-empty subset of {allowed_email_addresses, allowed_email_domains, allowed_groups} (each >= 2x) with list variants (several entries, case variants, lone *, * mixed, empty-string entry, non-ASCII entry, leading-@ domain, white space); cases stride over e-mail class (24: listed/case variants/several @/empty local/empty/look-alikes/no @/trailing dot/white space/unicode/long/...) x provider group answer (7: member/other/empty/error/case variant/near name/last listed) per upstream; each case is evaluated at the real /oauth2/callback, on the next request, after validity expiry (/validate + /profile) and after token expiry (/refresh + /profile) with unchanged facts; a second stream (c11-moved: upstreams listing 2-3 groups, masks group / address+group / domain+group / all) CHANGES the provider's group answer between the moments (login: first listed / last listed / both / unlisted / none; revalidation and refresh independently: first / last / both / unlisted / none / provider error; refresh from the login cookie or from the cookie revalidation set) and judges every moment against the reference with the facts of that moment; a third stream (c11-long) configures allowed_groups lists of 21/25/40/100 names (some with spaces, non-ASCII letters, 120 characters) and users whose only listed group sits at position 1/20/21/22/last/random of the list as the proxy asks it, at all four moments. /profile is answered like the real authenticator does (only groups the request asked about; sut.ProfileFaithful) except for one case in eight, which gets a fixed answer that also names an unasked, unlisted group. distinct = (kinds, list variants, e-mail class, group answer, login verdict, cookie source), counted when the callback answered. The empty rule set is probed through the configuration loader (separate stream)")
+	rep.Rule("per stack 16 generated upstreams cover every non-empty subset of {allowed_email_addresses, allowed_email_domains, allowed_groups} (each >= 2x) with list variants (several entries, case variants, lone *, * mixed, empty-string entry, non-ASCII entry, leading-@ domain, white space); cases stride over e-mail class (24: listed/case variants/several @/empty local/empty/look-alikes/no @/trailing dot/white space/unicode/long/...) x provider group answer (7: member/other/empty/error/case variant/near name/last listed) per upstream; each case is evaluated at the real /oauth2/callback, on the next request, after validity expiry (/validate + /profile) and after token expiry (/refresh + /profile) with unchanged facts; a second stream (c11-moved: upstreams listing 2-3 groups, masks group / address+group / domain+group / all) CHANGES the provider's group answer between the moments (login: first listed / last listed / both / unlisted / none; revalidation and refresh independently: first / last / both / unlisted / none / provider error; refresh from the login cookie or from the cookie revalidation set) and judges every moment against the reference with the facts of that moment; a third stream (c11-long) configures allowed_groups lists of 21/25/40/100 names (some with spaces, non-ASCII letters, 120 characters) and users whose only listed group sits at position 1/20/21/22/last/random of the list as the proxy asks it, at all four moments. /profile is answered like the real authenticator does (only groups the request asked about; sut.ProfileFaithful) except for one case in eight, which gets a fixed answer that also names an unasked, unlisted group. distinct = (kinds, list variants, e-mail class, group answer, login verdict, cookie source), counted when the callback answered. The empty rule set is probed through the configuration loader (separate stream). A fourth case stream (c11-rare) writes raw upstream_configs.yml documents whose rule lists are rare but legal - blank entries (\"\", \" \", several), alone or next to a real entry; entries from a {{template}} variable that resolves to the empty string (quoted, or unquoted in a block list) or to a padded name; padded entries (leading / trailing / both); duplicated entries (same / other case); rule kinds present-but-empty ([] / ~) next to a configured one - one rare kind per upstream, every (rule-kind subset, rare kind, variant) combination in turn, e-mail class (10, incl. an e-mail with an empty domain part) x provider answer (7: member as listed / as listed but trimmed / other / none / case variant / a group literally named blank / error), same four moments and judge; the reference reads configured strings literally: a blank entry names nothing, a list of blank entries is a configured rule kind that admits nobody; matches that exist only after trimming or case folding are counted don't-cares")
 	rep.Assume("the fake authenticator answers exactly as scripted (redeem/validate/refresh/profile keyed by per-case tokens)")
 	rep.Assume("virtual time = shifting the deadlines inside the sealed cookie with the proxy's own cipher (DESIGN 2.4)")
 	rep.Assume("for sessions minted by the harness (login refused) group membership on a request with no check due is 'as of the last check': not judged; a session with an empty e-mail cannot be issued (redeem refuses it): not judged where no e-mail rule is configured")
+
+	rep.Assume("rare-configuration stream: the ground truth of a generated upstream_configs.yml is what a plain YAML reader gets after substituting the template variables textually (an unquoted `- {{var}}` entry whose variable is empty reads as a null, i.e. the empty string); the harness re-reads every generated document that way and refuses to judge on a mismatch")
 
 	nConfigs := env.Pick(8, 40)
 	perConfig := env.Pick(512, 1024)
@@ -83,6 +90,25 @@ func TestProp(t *testing.T) {
 			onlyCfg = only / perConfig
 		}
 		vh.ForEach(nConfigs, 8, onlyCfg, func(ci int) { runConfig(rep, env, ci, perConfig, only) })
+		rep.Extra("wall_main_stream_s", time.Since(start).Seconds())
+	}
+	// rare-but-legal rule configurations: blank / padded / duplicated / templated entries (rare_test.go). The
+	// stream has its own stacks and shares nothing with the others; it runs next to the two smaller streams
+	// below (the box is latency-bound, not CPU-bound, with eight stacks at a time)
+	var rareDone sync.WaitGroup
+	perRare := env.Pick(96, 160)
+	if onlyR, skipR := env.Only("c11-rare"); !skipR {
+		onlyCfg := -1
+		if onlyR >= 0 {
+			onlyCfg = onlyR / perRare
+		}
+		rareDone.Add(1)
+		go func() {
+			defer rareDone.Done()
+			startR := time.Now()
+			vh.ForEach(nConfigs, 4, onlyCfg, func(ci int) { runRareConfig(rep, env, ci, perRare, onlyR) })
+			rep.Extra("wall_rare_stream_s", time.Since(startR).Seconds())
+		}()
 	}
 	// changing facts: the provider's group answer differs between the moments (moved_test.go)
 	perMoved := env.Pick(64, 160)
@@ -102,6 +128,7 @@ func TestProp(t *testing.T) {
 		}
 		vh.ForEach(nConfigs, 8, onlyCfg, func(ci int) { runLongConfig(rep, env, ci, perLong, onlyL) })
 	}
+	rareDone.Wait()
 	onlyE, skipE := env.Only("c11-empty")
 	if !skipE && only < 0 {
 		nEmpty := env.Pick(10, 40)
@@ -130,6 +157,19 @@ func TestProp(t *testing.T) {
 		"profile_answers_fixed_with_unasked_group", "profile_answers_faithful"} {
 		floors[c] = 5
 	}
+	// the rare-configuration stream: every configuration family reached the login decision, and the zone it
+	// exists for (a rule kind configured with blank entries only, a user nobody admits) was judged
+	for _, c := range []string{"group_all-blank", "group_blank+real", "group_padded", "group_padded+real", "group_duplicated", "group_template",
+		"address_all-blank", "address_blank+real", "address_padded", "address_padded+real", "address_duplicated",
+		"domain_all-blank", "domain_blank+real", "domain_padded", "domain_padded+real", "domain_duplicated"} {
+		floors["rare_cfg_"+c] = 8
+	}
+	floors["rare_reference_deny_with_all_blank_group_list"] = 20
+	floors["rare_reference_deny_with_all_blank_address_list"] = 10
+	floors["rare_reference_deny_with_all_blank_domain_list"] = 10
+	floors["rare_moment_login"] = 300
+	floors["rare_reference_compared_login"] = 200
+	floors["rare_later_compared_minted_cookie"] = 100
 	for k, v := range floors {
 		if env.Replay != "" {
 			v = 0
@@ -274,7 +314,19 @@ func runCase(rep *vh.Report, env vh.Env, ps *sut.ProxyStack, u *upstream, ci, i,
 	ansClass := answerClasses[cell/nClasses]
 	email := genEmail(r, class, u.uni)
 	memberOf, provFailed := genAnswer(r, ansClass, u.rules.Groups, u.uni)
+	judgeCase(rep, ps, u, "c11", "", ci, i, k, r, class, ansClass, email, memberOf, provFailed)
+}
 
+// judgeCase takes one (upstream, e-mail, provider answer) triple through the four moments and judges them.
+// stream names the case stream (replay); pfx prefixes the coverage counters of streams other than the main
+// one so that the main stream's floors keep measuring the main stream; u.rare (set by the rare-configuration
+// stream only) is appended to the signatures that name an input class.
+func judgeCase(rep *vh.Report, ps *sut.ProxyStack, u *upstream, stream, pfx string, ci, i, k int, r *rand.Rand, class, ansClass, email string, memberOf []string, provFailed bool) {
+	count := func(name string, n int) { rep.Count(pfx+name, n) }
+	rareTag := ""
+	if u.rare != "" {
+		rareTag = " rules=" + u.rare
+	}
 	ref := refer(u.rules, email, memberOf)
 	if ok, _ := u.rules.Admits(email, memberOf); ref.overall != dontCare && ok != (ref.overall == pass) {
 		rep.Inconclusive("reference wrapper disagrees with oracle.Rules.Admits on a settled case: " + shorten(email))
@@ -286,7 +338,7 @@ func runCase(rep *vh.Report, env vh.Env, ps *sut.ProxyStack, u *upstream, ci, i,
 	fixed := fixedAnswers(r)
 	prof := scriptAnswer(email, memberOf, provFailed, fixed)
 	if u.mask&kGrp != 0 {
-		rep.Count(map[bool]string{true: "profile_answers_fixed_with_unasked_group", false: "profile_answers_faithful"}[fixed], 1)
+		count(map[bool]string{true: "profile_answers_fixed_with_unasked_group", false: "profile_answers_faithful"}[fixed], 1)
 	}
 	ps.Auth.Set("profile", at, prof)
 	ps.Auth.Set("profile", nt, prof)
@@ -301,7 +353,7 @@ func runCase(rep *vh.Report, env vh.Env, ps *sut.ProxyStack, u *upstream, ci, i,
 	}()
 
 	kc := kase{Index: i, Config: ci, Upstream: u.idx, Kinds: maskName(u.mask),
-		Variants:  fmt.Sprintf("a=%s d=%s g=%s", u.av, u.dv, u.gv),
+		Variants: fmt.Sprintf("a=%s d=%s g=%s", u.av, u.dv, u.gv), Rare: u.rare,
 		Addresses: u.rules.Addresses, Domains: u.rules.Domains, Groups: u.rules.Groups,
 		EmailClass: class, Email: shorten(email), Answer: ansClass, MemberOf: memberOf, ProvError: provFailed,
 		RefAddr: ref.addr.String(), RefDom: ref.dom.String(), RefGrp: ref.grp.String(), Ref: ref.verdict()}
@@ -313,7 +365,7 @@ func runCase(rep *vh.Report, env vh.Env, ps *sut.ProxyStack, u *upstream, ci, i,
 		defer func() { ps.Auth.Unset("redeem", lr.Code); ps.Auth.Calls("redeem", lr.Code) }()
 	}
 	if lr.Start == nil || lr.Start.Err != nil || lr.Callback == nil || lr.Callback.Err != nil {
-		rep.Count("client_errors", 1)
+		count("client_errors", 1)
 		return
 	}
 	if lr.Start.Status != http.StatusFound || lr.State == "" {
@@ -328,28 +380,28 @@ func runCase(rep *vh.Report, env vh.Env, ps *sut.ProxyStack, u *upstream, ci, i,
 	case lr.Cookie == "" && (cb.Status == http.StatusForbidden || (email == "" && cb.Status == http.StatusInternalServerError)):
 		kc.Login.Verdict = "deny"
 		if email == "" {
-			rep.Count("login_empty_email_refused_before_validators", 1)
+			count("login_empty_email_refused_before_validators", 1)
 		}
 	default:
 		kc.Login.Verdict = "error"
-		rep.Violate("c11", i, fmt.Sprintf("login-unexpected-outcome status=%d session=%v email=%s", cb.Status, lr.Cookie != "", coarse[class]),
+		rep.Violate(stream, i, fmt.Sprintf("login-unexpected-outcome status=%d session=%v email=%s%s", cb.Status, lr.Cookie != "", coarse[class], rareTag),
 			"the callback neither set a session and redirected nor answered 403 without a session", kc)
 		return
 	}
-	rep.Count("moment_login", 1)
-	rep.Count("kinds_"+maskName(u.mask), 1)
-	rep.Count("login_"+kc.Login.Verdict+"_status_"+fmt.Sprint(cb.Status), 1)
-	rep.Count("emailclass_"+class, 1)
+	count("moment_login", 1)
+	count("kinds_"+maskName(u.mask), 1)
+	count("login_"+kc.Login.Verdict+"_status_"+fmt.Sprint(cb.Status), 1)
+	count("emailclass_"+class, 1)
 	if lookalike[class] {
-		rep.Count("lookalike_probes", 1)
+		count("lookalike_probes", 1)
 	}
 	if u.mask&kGrp != 0 {
-		rep.Count("answer_"+ansClass, 1)
-		rep.Count("profile_calls_at_login", len(ps.Auth.PeekCalls("profile", at)))
+		count("answer_"+ansClass, 1)
+		count("profile_calls_at_login", len(ps.Auth.PeekCalls("profile", at)))
 	}
 	admitted := kc.Login.Verdict == "admit"
 	if admitted {
-		rep.Count("login_admitted", 1)
+		count("login_admitted", 1)
 		s := ps.Open(lr.Cookie)
 		if s == nil || s.Email != email {
 			rep.Inconclusive("the session set at login does not open / carries another e-mail than scripted")
@@ -357,11 +409,11 @@ func runCase(rep *vh.Report, env vh.Env, ps *sut.ProxyStack, u *upstream, ci, i,
 		}
 		if ref.overall == pass {
 			for _, kd := range ref.kinds(pass) {
-				rep.Count("login_admitted_by_"+kd, 1)
+				count("login_admitted_by_"+kd, 1)
 			}
 		}
 	} else {
-		rep.Count("login_denied", 1)
+		count("login_denied", 1)
 	}
 	kc.Cookie = map[bool]string{true: "login", false: "minted"}[admitted]
 	rep.Distinct(fmt.Sprintf("%s|%s|%s|%s|%s|%s|%s|%s", maskName(u.mask), u.av, u.dv, u.gv, class, ansClass, kc.Login.Verdict, kc.Cookie))
@@ -372,21 +424,26 @@ func runCase(rep *vh.Report, env vh.Env, ps *sut.ProxyStack, u *upstream, ci, i,
 	if u.mask&kGrp != 0 && provFailed {
 		inputTag = " groups=provider-error"
 	}
+	if rareTag != "" && !(u.mask&kGrp != 0 && provFailed) {
+		// rare-configuration stream: the class that matters is how the rules are configured (a failed group
+		// lookup keeps its own class, as in the main stream: memberships play no part then)
+		inputTag = rareTag
+	}
 	loginDiffers := false
 	if ref.overall == dontCare {
-		rep.Count("dontcare_login", 1)
-		rep.Count("dontcare_emailclass_"+class, 1)
+		count("dontcare_login", 1)
+		count("dontcare_emailclass_"+class, 1)
 	} else {
-		rep.Count("reference_compared_login", 1)
-		rep.Count("reference_"+ref.verdict(), 1)
+		count("reference_compared_login", 1)
+		count("reference_"+ref.verdict(), 1)
 		if kc.Login.Verdict != ref.verdict() {
 			loginDiffers = true
 			tag := inputTag
 			if ref.overall == pass {
 				// what matters is which rule admits per the reference and how the e-mail matches it
-				tag = " admitted-by=" + ref.admittedBy() + howAdmitted(ref.admittedBy(), u.rules, email)
+				tag = " admitted-by=" + ref.admittedBy() + howAdmitted(ref.admittedBy(), u.rules, email) + rareTag
 			}
-			rep.Violate("c11", i, fmt.Sprintf("login-differs: login=%s reference=%s%s", kc.Login.Verdict, ref.verdict(), tag),
+			rep.Violate(stream, i, fmt.Sprintf("login-differs: login=%s reference=%s%s", kc.Login.Verdict, ref.verdict(), tag),
 				"the verdict of the real validators at /oauth2/callback differs from the documented meaning of the allow rules", kc)
 		}
 	}
@@ -412,30 +469,30 @@ func runCase(rep *vh.Report, env vh.Env, ps *sut.ProxyStack, u *upstream, ci, i,
 		*st.out = p
 		for _, h := range hits {
 			if h.Backend != u.spec.Service {
-				rep.Violate("c11", i, "hit-on-foreign-backend", "request reached another upstream's backend", kc)
+				rep.Violate(stream, i, "hit-on-foreign-backend", "request reached another upstream's backend", kc)
 			}
 		}
 		switch p.Verdict {
 		case "admit", "deny":
-			rep.Count("moment_"+strings.Replace(st.name, "-", "_", -1), 1)
-			rep.Count(fmt.Sprintf("%s_%s_status_%d", strings.Replace(st.name, "-", "_", -1), p.Verdict, p.Status), 1)
+			count("moment_"+strings.Replace(st.name, "-", "_", -1), 1)
+			count(fmt.Sprintf("%s_%s_status_%d", strings.Replace(st.name, "-", "_", -1), p.Verdict, p.Status), 1)
 		case "redirect":
 			rep.Inconclusive("a request with a live session was redirected to sign-in at " + st.name + " (the harness's session was not accepted)")
 		case "error":
 			if p.Status != 0 {
-				rep.Violate("c11", i, fmt.Sprintf("later-unexpected-status site=%s status=%d", st.name, p.Status), "request neither reached the upstream nor was refused", kc)
+				rep.Violate(stream, i, fmt.Sprintf("later-unexpected-status site=%s status=%d", st.name, p.Status), "request neither reached the upstream nor was refused", kc)
 			}
 		}
 	}
 	// back-channel observability: which checks the later moments really went through
 	if n := len(ps.Auth.PeekCalls("validate", at)); n > 0 {
-		rep.Count("validate_calls", n)
+		count("validate_calls", n)
 	}
 	if n := len(ps.Auth.PeekCalls("refresh", rt)); n > 0 {
-		rep.Count("refresh_calls", n)
+		count("refresh_calls", n)
 	}
 	if n := len(ps.Auth.PeekCalls("profile", nt)); n > 0 {
-		rep.Count("profile_calls_after_refresh", n)
+		count("profile_calls_after_refresh", n)
 	}
 	if kc.Reval.Verdict == "admit" && len(ps.Auth.PeekCalls("validate", at)) == 0 {
 		rep.Inconclusive("the revalidation moment did not consult /validate (virtual time did not take effect)")
@@ -456,22 +513,22 @@ func runCase(rep *vh.Report, env vh.Env, ps *sut.ProxyStack, u *upstream, ci, i,
 		}
 		if admitted {
 			if !ref.settled {
-				rep.Count("dontcare_later", 1)
+				count("dontcare_later", 1)
 				// the reference is silent, consistency is not: with ONE rule kind configured there is no
 				// any-of/all-of question, so the verdict must not change while the facts are unchanged
 				if singleKind {
-					rep.Count("consistency_only_compared", 1)
+					count("consistency_only_compared", 1)
 					if v == "deny" {
-						rep.Violate("c11", i, fmt.Sprintf("inconsistent(single-kind, reference silent): login=admit later=deny site=%s kinds=%s", st.name, kindsCfg),
+						rep.Violate(stream, i, fmt.Sprintf("inconsistent(single-kind, reference silent): login=admit later=deny site=%s kinds=%s%s", st.name, kindsCfg, rareTag),
 							"admitted at login, refused later with unchanged facts although only one rule kind is configured", kc)
 					}
 				}
 				continue
 			}
-			rep.Count("later_compared_login_cookie", 1)
+			count("later_compared_login_cookie", 1)
 			switch {
 			case ref.overall == pass && v == "admit":
-				rep.Count("consistent_admit_"+strings.Replace(st.name, "-", "_", -1), 1)
+				count("consistent_admit_"+strings.Replace(st.name, "-", "_", -1), 1)
 			case ref.overall == pass && v == "deny":
 				fe := ref.failingEmailKinds()
 				failing := "none"
@@ -484,19 +541,19 @@ func runCase(rep *vh.Report, env vh.Env, ps *sut.ProxyStack, u *upstream, ci, i,
 					if st.name != "next-request" && kc.Next.Verdict == "deny" {
 						// the per-request all-of loop already refused this user on the plain next request
 						// (reported there); the same loop runs after revalidation / refresh
-						rep.Count("later_denied_same_class_as_next_request", 1)
+						count("later_denied_same_class_as_next_request", 1)
 						continue
 					}
 				} else if ref.grp == fail {
 					failing = "group"
 				}
-				rep.Violate("c11", i, fmt.Sprintf("inconsistent: login=admit later=deny site=%s admitted-by=%s failing=%s", st.name, ref.admittedBy(), failing),
+				rep.Violate(stream, i, fmt.Sprintf("inconsistent: login=admit later=deny site=%s admitted-by=%s failing=%s", st.name, ref.admittedBy(), failing),
 					"a user admitted at login (any-of, as documented) is refused later although the facts are unchanged", kc)
 			case ref.overall == fail && v == "admit":
 				// login already differed from the reference (reported there); the later moment agrees with login
-				rep.Count("later_differs_like_login", 1)
+				count("later_differs_like_login", 1)
 				if !loginDiffers {
-					rep.Violate("c11", i, fmt.Sprintf("later-differs: site=%s cookie=login later=admit reference=deny%s", st.name, inputTag),
+					rep.Violate(stream, i, fmt.Sprintf("later-differs: site=%s cookie=login later=admit reference=deny%s", st.name, inputTag),
 						"a user no configured rule admits is served", kc)
 				}
 			}
@@ -505,20 +562,20 @@ func runCase(rep *vh.Report, env vh.Env, ps *sut.ProxyStack, u *upstream, ci, i,
 		// minted cookie (login refused)
 		switch {
 		case !ref.settled:
-			rep.Count("dontcare_later", 1)
+			count("dontcare_later", 1)
 			continue
 		case email == "" && !emailKindsCfg:
-			rep.Count("dontcare_minted_empty_email_group_only", 1)
+			count("dontcare_minted_empty_email_group_only", 1)
 			continue
 		case st.name == "next-request" && u.mask&kGrp != 0:
-			rep.Count("dontcare_minted_groups_as_of_last_check", 1)
+			count("dontcare_minted_groups_as_of_last_check", 1)
 			continue
 		}
-		rep.Count("later_compared_minted_cookie", 1)
+		count("later_compared_minted_cookie", 1)
 		if v != ref.verdict() {
 			if loginDiffers && v == kc.Login.Verdict {
 				// same root as the login disagreement reported above
-				rep.Count("later_differs_like_login", 1)
+				count("later_differs_like_login", 1)
 				continue
 			}
 			// every configured kind refuses this user per the reference: name the family that should have
@@ -532,11 +589,12 @@ func runCase(rep *vh.Report, env vh.Env, ps *sut.ProxyStack, u *upstream, ci, i,
 				default:
 					tag = " refusing=email-rules+group-rule"
 				}
+				tag += rareTag
 			}
-			rep.Violate("c11", i, fmt.Sprintf("later-differs: site=%s cookie=minted later=%s reference=%s%s", st.name, v, ref.verdict(), tag),
+			rep.Violate(stream, i, fmt.Sprintf("later-differs: site=%s cookie=minted later=%s reference=%s%s", st.name, v, ref.verdict(), tag),
 				"the verdict on a later request differs from the documented meaning of the allow rules", kc)
 		} else {
-			rep.Count("minted_refused_"+strings.Replace(st.name, "-", "_", -1), 1)
+			count("minted_refused_"+strings.Replace(st.name, "-", "_", -1), 1)
 		}
 	}
 }
